@@ -81,7 +81,7 @@ SPEC = dict(
         # (foreign stop-token type + erased operation completing with done from inside the forwarded stop request;
         # probes/native/any_sender_of_adapter_request_stop_uaf.cpp)
         dict(name='forward_callback_source_outlives_request_stop', harness='h_fwd_call', enforce='fwd_callback_call', replace=['op_for_complete'],
-             defines=['VF_PIN_CHECK'], tier='thorough'),
+             defines=['VF_PIN_CHECK']),
         dict(name='lemma_order', harness='lemma_order', mode='lemma'),
         dict(name='lemma_ctor', harness='lemma_ctor', mode='lemma'),
     ],
